@@ -15,6 +15,8 @@ STD_AXIOMS = {'propext', 'Classical.choice', 'Quot.sound'}
 
 os.environ.setdefault('PYTHONDONTWRITEBYTECODE', '1')
 sys.dont_write_bytecode = True
+if hasattr(sys, 'set_int_max_str_digits'):
+    sys.set_int_max_str_digits(0)      # exact rationals of the model can have thousands of digits
 os.environ.setdefault('MPLBACKEND', 'Agg')
 
 
